@@ -17,12 +17,12 @@ import (
 )
 
 type c06Case struct {
-	F        []uint64 `json:"follower_terms"` // terms of entries at index 2.. (index 1 is the configuration, term 1)
-	K        uint64   `json:"compacted_through"`
-	C        uint64   `json:"commit"`
-	FT       uint64   `json:"follower_term"`
-	S        []uint64 `json:"sender_terms"`
-	Reqs     []c06Req `json:"requests"`
+	F    []uint64 `json:"follower_terms"` // terms of entries at index 2.. (index 1 is the configuration, term 1)
+	K    uint64   `json:"compacted_through"`
+	C    uint64   `json:"commit"`
+	FT   uint64   `json:"follower_term"`
+	S    []uint64 `json:"sender_terms"`
+	Reqs []c06Req `json:"requests"`
 }
 
 type c06Req struct {
@@ -477,7 +477,7 @@ func c06Check(prop, tier string) int {
 	ev := &common.Evidence{PropertyID: prop, Tier: tier, Seed: common.Seed(), Level: "exploration", WallS: time.Since(t0).Seconds(), Violations: len(rep.Violations),
 		Coverage: map[string]any{
 			"evaluations": total.Calls, "distinct_nontrivial": distinct,
-			"rule": "every (follower log, compacted prefix, commit index, follower term) x every Log-Matching-compatible sender log holding the follower's committed prefix x every request (term lower/equal/higher, every prev index, every contiguous entries window starting at prev+1, every leaderCommit 0..last+1) within the length bound, plus ordered pairs (an older request of the same sender re-delivered after a newer one) for the shorter logs; each case is a fresh real node booted from preloaded storage; non-trivial = the request was accepted (log or commit index could change); all cases are distinct by construction",
+			"rule":    "every (follower log, compacted prefix, commit index, follower term) x every Log-Matching-compatible sender log holding the follower's committed prefix x every request (term lower/equal/higher, every prev index, every contiguous entries window starting at prev+1, every leaderCommit 0..last+1) within the length bound, plus ordered pairs (an older request of the same sender re-delivered after a newer one) for the shorter logs; each case is a fresh real node booted from preloaded storage; non-trivial = the request was accepted (log or commit index could change); all cases are distinct by construction",
 			"samples": samples, "follower_states": total.States, "single_request_cases": total.Cases, "request_pairs": total.Pairs,
 			"outcomes": total.Outcomes, "exhaustive": !total.Deadline, "max_log_length": map[string]int{"quick": 4, "thorough": 5}[tier],
 			"cluster_states": cstates, "cluster_transitions": ctrans,
